@@ -187,6 +187,7 @@ type c12Req struct {
 	localAddr string
 	headers   [][2]string
 	body      string
+	chunked   bool // send the body with chunked transfer encoding (no Content-Length)
 	// reference: names of the violated preconditions
 	violated []string
 }
@@ -263,6 +264,10 @@ func c12Dims() []c12Dim {
 			func(r *c12Req) string { r.body = c12Pad(r.body, c12BodyLimit); return "" },
 			func(r *c12Req) string { r.body = c12Pad(r.body, c12BodyLimit+1); return "body-size" },
 			func(r *c12Req) string { r.body = c12Pad(r.body, 4*c12BodyLimit); return "body-size" },
+			// the same sizes with chunked transfer encoding: no declared Content-Length
+			func(r *c12Req) string { r.body, r.chunked = c12Pad(r.body, c12BodyLimit), true; return "" },
+			func(r *c12Req) string { r.body, r.chunked = c12Pad(r.body, c12BodyLimit+1), true; return "body-size" },
+			func(r *c12Req) string { r.body, r.chunked = c12Pad(r.body, 4*c12BodyLimit), true; return "body-size" },
 		}},
 		{"version-header", streamable, []func(*c12Req) string{
 			func(r *c12Req) string {
@@ -468,7 +473,17 @@ func c12Send(e *c12Endpoint, r *c12Req) (status int, body string, err error) {
 	for _, h := range r.headers {
 		fmt.Fprintf(&b, "%s: %s\r\n", h[0], h[1])
 	}
-	fmt.Fprintf(&b, "Content-Length: %d\r\n\r\n%s", len(r.body), r.body)
+	if r.chunked {
+		b.WriteString("Transfer-Encoding: chunked\r\n\r\n")
+		for rest := r.body; len(rest) > 0; {
+			n := min(len(rest), 1000)
+			fmt.Fprintf(&b, "%x\r\n%s\r\n", n, rest[:n])
+			rest = rest[n:]
+		}
+		b.WriteString("0\r\n\r\n")
+	} else {
+		fmt.Fprintf(&b, "Content-Length: %d\r\n\r\n%s", len(r.body), r.body)
+	}
 	req, err := http.ReadRequest(bufio.NewReader(strings.NewReader(b.String())))
 	if err != nil {
 		return 0, "", err
